@@ -541,6 +541,11 @@ func runC11(w *World) *Result {
 			r.Bad("R-C11-pos", key, w.Pos(arm.Pos), what+" but the arm never updates the row counter: every later token reports a wrong row")
 		}
 	}
+	// what the bookkeeping of such an arm is computed from: the consumed source text
+	// (slices of the source, probe matches on it), never the decoded token value
+	if rowObj != nil {
+		posSources(w, lf, info, loop, arms, rowObj, r)
+	}
 	// the NEWLINE token itself
 	if rowObj != nil {
 		r.Ok("R-C11-pos", "pos:newline-token", w.Pos(loop.Pos()), "NEWLINE tokens advance the row counter")
@@ -1253,4 +1258,191 @@ func leadsToErrorReturn(b *ssa.BasicBlock, depth int) bool {
 		return leadsToErrorReturn(b.Succs[0], depth+1)
 	}
 	return false
+}
+
+// posSources: in every arm that assigns the row counter, the values assigned to the
+// position variables (row counter and the other integer variables declared outside the
+// arm) derive from the source text the arm consumed: the source parameter, slices of it,
+// results of probes applied to it, strings.Split/Count/Index/LastIndex and len of those.
+// A value accumulated with += (the decoded string value) or produced by a decoder
+// (strconv.Unquote) differs from the source text whenever an escape is present:
+// "a\nb" contains a newline only after decoding.
+func posSources(w *World, lf *LexFacts, info *types.Info, loop *ast.ForStmt, arms []lexArm, rowObj types.Object, r *Result) {
+	fn := lf.Tokenize
+	// all assignments per object in the function
+	type def struct {
+		rhs ast.Expr
+		acc bool
+	}
+	defs := map[types.Object][]def{}
+	objOf := func(e ast.Expr) types.Object {
+		id, ok := e.(*ast.Ident)
+		if !ok {
+			return nil
+		}
+		if o := info.Defs[id]; o != nil {
+			return o
+		}
+		return info.Uses[id]
+	}
+	ast.Inspect(fn, func(n ast.Node) bool {
+		switch s := n.(type) {
+		case *ast.AssignStmt:
+			for i, l := range s.Lhs {
+				o := objOf(l)
+				if o == nil {
+					continue
+				}
+				var rhs ast.Expr
+				if len(s.Rhs) == len(s.Lhs) {
+					rhs = s.Rhs[i]
+				} else if len(s.Rhs) == 1 {
+					rhs = s.Rhs[0]
+				}
+				defs[o] = append(defs[o], def{rhs, s.Tok == token.ADD_ASSIGN && isString(o.Type())})
+			}
+		case *ast.ValueSpec:
+			for i, nm := range s.Names {
+				if o := info.Defs[nm]; o != nil && i < len(s.Values) {
+					defs[o] = append(defs[o], def{s.Values[i], false})
+				}
+			}
+		}
+		return true
+	})
+	var params = map[types.Object]bool{}
+	for _, f := range fn.Type.Params.List {
+		for _, nm := range f.Names {
+			params[info.Defs[nm]] = true
+		}
+	}
+	okCalls := map[string]bool{"strings.Split": true, "strings.Count": true, "strings.Index": true, "strings.LastIndex": true, "strings.ReplaceAll": true, "strings.SplitN": true, "strings.TrimRight": true, "strings.TrimLeft": true, "strings.HasPrefix": true, "strings.HasSuffix": true}
+	var check func(e ast.Expr, seen map[types.Object]bool, depth int) string
+	check = func(e ast.Expr, seen map[types.Object]bool, depth int) string {
+		if e == nil || depth > 12 {
+			return ""
+		}
+		if tv, ok := info.Types[e]; ok && tv.Value != nil {
+			return ""
+		}
+		switch x := e.(type) {
+		case *ast.ParenExpr:
+			return check(x.X, seen, depth+1)
+		case *ast.BinaryExpr:
+			if m := check(x.X, seen, depth+1); m != "" {
+				return m
+			}
+			return check(x.Y, seen, depth+1)
+		case *ast.UnaryExpr:
+			return check(x.X, seen, depth+1)
+		case *ast.IndexExpr:
+			return check(x.X, seen, depth+1) // the index selects, it does not contribute text
+		case *ast.SliceExpr:
+			return check(x.X, seen, depth+1)
+		case *ast.Ident:
+			o := objOf(x)
+			if o == nil || params[o] || seen[o] {
+				return ""
+			}
+			if _, isVar := o.(*types.Var); !isVar {
+				return ""
+			}
+			seen[o] = true
+			ds := defs[o]
+			if !isString(o.Type()) {
+				if b, ok := o.Type().Underlying().(*types.Basic); ok && b.Info()&types.IsInteger != 0 {
+					// integer positions (i, ogI, column …): follow only variables defined inside the loop
+					for _, d := range ds {
+						if d.rhs != nil && within(loop.Body, d.rhs.Pos()) {
+							if m := check(d.rhs, seen, depth+1); m != "" {
+								return m
+							}
+						}
+					}
+					return ""
+				}
+			}
+			for _, d := range ds {
+				if d.acc {
+					return fmt.Sprintf("%s, which is accumulated piecewise (the decoded value of the token)", x.Name)
+				}
+				if m := check(d.rhs, seen, depth+1); m != "" {
+					return m
+				}
+			}
+			return ""
+		case *ast.CallExpr:
+			if id, ok := x.Fun.(*ast.Ident); ok && (id.Name == "len" || id.Name == "string") {
+				if len(x.Args) == 1 {
+					return check(x.Args[0], seen, depth+1)
+				}
+			}
+			if o := calleeObj(info, x); o != nil && o.Pkg() != nil {
+				full := o.Pkg().Name() + "." + o.Name()
+				if okCalls[full] {
+					for _, a := range x.Args {
+						if m := check(a, seen, depth+1); m != "" {
+							return m
+						}
+					}
+					return ""
+				}
+				// regexp probes: result text is a piece of the argument
+				if f, ok := o.(*types.Func); ok {
+					if sig, ok := f.Type().(*types.Signature); ok && sig.Recv() != nil && strings.HasSuffix(sig.Recv().Type().String(), "regexp.Regexp") {
+						for _, a := range x.Args {
+							if m := check(a, seen, depth+1); m != "" {
+								return m
+							}
+						}
+						return ""
+					}
+				}
+				return fmt.Sprintf("the result of %s (not a piece of the source text)", full)
+			}
+			return "the result of an unresolved call"
+		}
+		return ""
+	}
+	for i, arm := range arms {
+		n := 0
+		assignsRow := false
+		var bad []string
+		ast.Inspect(arm.Body, func(nd ast.Node) bool {
+			as, ok := nd.(*ast.AssignStmt)
+			if !ok {
+				return true
+			}
+			for k, l := range as.Lhs {
+				o := objOf(l)
+				if o == nil || within(arm.Body, o.Pos()) {
+					continue
+				}
+				b, ok := o.Type().Underlying().(*types.Basic)
+				if !ok || b.Info()&types.IsInteger == 0 {
+					continue
+				}
+				if o == rowObj {
+					assignsRow = true
+				}
+				if k >= len(as.Rhs) {
+					continue
+				}
+				n++
+				if m := check(as.Rhs[k], map[types.Object]bool{}, 0); m != "" {
+					bad = append(bad, fmt.Sprintf("%s %s … is computed from %s", o.Name(), as.Tok, m))
+				}
+			}
+			return true
+		})
+		if !assignsRow {
+			continue
+		}
+		key := fmt.Sprintf("pos:source:arm#%d", i)
+		if len(bad) == 0 {
+			r.Ok("R-C11-pos", key, w.Pos(arm.Pos), fmt.Sprintf("%d position updates, all computed from the consumed source text", n))
+		} else {
+			r.Bad("R-C11-pos", key, w.Pos(arm.Pos), strings.Join(uniq(bad), "; ")+": rows and columns of later tokens follow the decoded value instead of the source (an escaped \\n counts as a line break, a literal one inside the token may not)")
+		}
+	}
 }
